@@ -33,6 +33,18 @@ func newLower() *lower {
 	return &lower{small: &memory.Storage{}, large: &memory.Storage{}, meta: sorted.NewMemoryKeyValue()}
 }
 
+// release drops the blob bytes.  perkeep keeps every storage that ever received a blob in a
+// process-global hub table (blobserver.GetHub), so the shells of finished incarnations stay
+// reachable; emptied, they are small.
+func (lw *lower) release() {
+	ctx := context.Background()
+	lw.small.RemoveBlobs(ctx, refsOf(lw.small))
+	lw.large.RemoveBlobs(ctx, refsOf(lw.large))
+	if w, ok := lw.meta.(sorted.Wiper); ok {
+		w.Wipe()
+	}
+}
+
 // snapshot is an immutable copy of a durable state.  Blob bytes are interned (loose blobs
 // are the universe's own slices, zips are kept once per case).
 type snapshot struct {
